@@ -258,6 +258,17 @@ fn generate(rng: &mut Rng, n: u64, tier: &str, emit: &mut dyn FnMut(Vec<String>)
         emit(vec![join(&[error(b"InvalidTextEncoding", Some(&vec![b'm'; len]))])]);
         emit(vec![join(&[error(&vec![b'c'; len], Some(b"m"))])]);
     }
+    // over-long text whose 65 535th byte falls at every offset inside a 2-, 3- and 4-byte UTF-8 sequence
+    for (unit, width) in [("é", 2usize), ("中", 3), ("😀", 4)] {
+        for pad in 0..width {
+            let mut t = "a".repeat(pad);
+            while t.len() < 65_540 {
+                t.push_str(unit);
+            }
+            emit(vec![join(&[error(b"InternalError", Some(t.as_bytes())), "E".to_owned()])]);
+            emit(vec![join(&[error(t.as_bytes(), None)])]);
+        }
+    }
     // Stats / Progress values at the i64 boundaries, every None pattern
     let vals = [None, Some(0i64), Some(-1), Some(9), Some(10), Some(i64::MAX), Some(i64::MIN)];
     for p in vals {
